@@ -93,6 +93,7 @@ type Ctx struct {
 	applied  map[string]bool // contracts of verified repo functions applied at call sites (the check verifies them too)
 	frameOn  bool               // heap frame of the function under verification is checked
 	frameT   map[string][]*Term // heap key -> objects named by modifies/sets (entry state)
+	protect  []*Clause          // protects clauses of the function under verification
 	bridging bool // abstract fields of concrete request/response objects read their struct fields
 }
 
